@@ -223,3 +223,51 @@ def reachable_blocks(fn, evalcond):
                 seen.add(s)
                 q.append(s)
     return seen
+
+
+def reach_with_paths(fn, evalcond):
+    """{block: witness path [(block, edge index)...]} for blocks reachable under the folded conditions"""
+    parent = {fn.entry: None}
+    q = deque([fn.entry])
+    while q:
+        b = q.popleft()
+        blk = fn.blocks[b]
+        succs = blk['succs']
+        t = blk.get('term')
+        nxt = []
+        if t and 'cond' in t and len(succs) == 2 and t['k'] != 'switch':
+            v = evalcond(fn, t['cond'], None)
+            for i, s in enumerate(succs):
+                if s is None:
+                    continue
+                if isinstance(v, bool) and v != (i == 0):
+                    continue
+                nxt.append((i, s))
+        else:
+            nxt = [(i, s) for i, s in enumerate(succs) if s is not None]
+        for i, s in nxt:
+            if s not in parent:
+                parent[s] = (b, i)
+                q.append(s)
+    out = {}
+    for b in parent:
+        path = []
+        cur = b
+        while parent[cur] is not None:
+            pb, i = parent[cur]
+            path.append((cur, i))
+            cur = pb
+        path.append((cur, None))
+        path.reverse()
+        out[b] = path
+    return out
+
+
+def sink_reachability(fn, evalcond, sinks):
+    """sinks: iterable of node ids -> {nid: witness path or None}"""
+    r = reach_with_paths(fn, evalcond)
+    out = {}
+    for nid in sinks:
+        pos = fn.pos(nid)
+        out[nid] = r.get(pos[0]) if pos else None
+    return out
